@@ -19,6 +19,11 @@
 (*   Reload       a fresh Crop(name=, parent_dir=) object                  *)
 (*   Reap(c, a)   Crop.reap(clean_up=c, allow_incomplete=a)                *)
 (*   FixCause     the user corrects what made reaping fail                 *)
+(*   ChangeConst / ChangeConstMid   the user changes the farmer's constants *)
+(*                between two campaigns / in the middle of one: batches    *)
+(*                carry the new constants after the next (re-)sow, each    *)
+(*                result those its batch held when it was grown (KOf)      *)
+(*   DirectHarvest  other points harvested into the same data file        *)
 (*                                                                         *)
 (* Settings are numbered 1..N in the enumeration order of the sow (cases   *)
 (* in the order given, then the product of the grid axes *sorted by        *)
@@ -43,7 +48,7 @@ VARIABLES cfg, perm1,
           sown,      \* ids in the order they were written to the batch files
           batch,     \* batch[i] = sequence of ids of batch i
           infoShuf,  \* shuffle seed recorded in the settings file (0 = False)
-          res,       \* res[i] \in {"absent", "ok", "bad"}
+          res,       \* res[i] \in {"absent", "ok", "ok1", "bad"}: "ok" / "ok1" = grown from batches holding constants version 0 / 1
           failing,   \* ids on which version 1 of the function raises
           hfn, dfn,  \* version of the function held by the current handle / pickled in the crop (0: none)
           kver, sownK, \* version of the farmer's constants now / baked into the sown batches
@@ -142,6 +147,11 @@ Sow ==
     /\ outcome' = "ok"
     /\ UNCHANGED <<cfg, perm1, failing, hfn, kver, cause, store, extra, value, steps>>
 
+(* a result remembers which version of the constants its batch file held when it was grown *)
+OkTags == {"ok", "ok1"}
+OkTag == IF sownK = 0 THEN "ok" ELSE "ok1"
+OkTagOf(k) == IF k = 0 THEN "ok" ELSE "ok1"
+
 Step == steps < MaxSteps /\ steps' = (IF Record THEN steps + 1 ELSE steps)
 
 (* re-sowing with the same inputs: batch files are rewritten, results stay - cropping.py:500-504 *)
@@ -149,7 +159,8 @@ ReSow ==
     /\ dir = "present" /\ Step
     /\ outcome' = "ok"
     /\ dfn' = hfn                           \* prepare() saves the handle's function again
-    /\ UNCHANGED <<cfg, perm1, dir, B, bsz, rem, sown, batch, infoShuf, res, failing, hfn, kver, sownK, cause, store, extra, value>>
+    /\ sownK' = kver                        \* and the batch files are rewritten with the farmer's constants as they are now
+    /\ UNCHANGED <<cfg, perm1, dir, B, bsz, rem, sown, batch, infoShuf, res, failing, hfn, kver, cause, store, extra, value>>
 
 (* growing always un-pickles the function stored in the crop - cropping.py:1156-1158 *)
 Fails(i) == dfn = 1 /\ \E k \in 1..Len(batch[i]) : batch[i][k] \in failing
@@ -158,7 +169,7 @@ Grow(i, via) ==
     /\ dir = "present" /\ Step /\ i \in 1..B
     /\ IF Fails(i)
           THEN outcome' = "raised" /\ UNCHANGED res          \* nothing is written for a batch whose function raised
-          ELSE outcome' = "ok" /\ res' = [res EXCEPT ![i] = "ok"]
+          ELSE outcome' = "ok" /\ res' = [res EXCEPT ![i] = OkTag]   \* an existing result is replaced
     /\ UNCHANGED <<cfg, perm1, dir, B, bsz, rem, sown, batch, infoShuf, failing, hfn, dfn, kver, sownK, cause, store, extra, value>>
 
 MissingSeq == SelectSeq(Iota(B), LAMBDA i : res[i] = "absent")
@@ -169,7 +180,7 @@ GrowSeq(ids) ==
                     THEN CHOOSE k \in 1..Len(ids) : Fails(ids[k]) /\ \A j \in 1..(k-1) : ~Fails(ids[j])
                     ELSE Len(ids) + 1
         grownNow == {ids[k] : k \in 1..(firstBad - 1)}
-    IN  /\ res' = [i \in 1..B |-> IF i \in grownNow THEN "ok" ELSE res[i]]
+    IN  /\ res' = [i \in 1..B |-> IF i \in grownNow THEN OkTag ELSE res[i]]
         /\ outcome' = IF firstBad <= Len(ids) THEN "raised" ELSE "ok"
 
 GrowSet(S) ==
@@ -205,6 +216,14 @@ ChangeConst ==
     /\ outcome' = "ok"
     /\ UNCHANGED <<cfg, perm1, dir, B, bsz, rem, sown, batch, infoShuf, res, failing, hfn, dfn, sownK, cause, store, extra, value>>
 
+(* in the middle of a campaign the user changes the farmer's constants (runner.constants = ...); the sown batches still hold
+   the old ones until the crop is sown again, and results grown before that stay what they are until their batch is grown again *)
+ChangeConstMid ==
+    /\ dir = "present" /\ Step /\ cfg.farmer # "none" /\ kver = 0
+    /\ kver' = 1
+    /\ outcome' = "ok"
+    /\ UNCHANGED <<cfg, perm1, dir, B, bsz, rem, sown, batch, infoShuf, res, failing, hfn, dfn, sownK, cause, store, extra, value>>
+
 Delete(i) ==
     /\ dir = "present" /\ Step /\ i \in 1..B /\ res[i] # "absent"
     /\ res' = [res EXCEPT ![i] = "absent"]
@@ -212,7 +231,7 @@ Delete(i) ==
     /\ UNCHANGED <<cfg, perm1, dir, B, bsz, rem, sown, batch, infoShuf, failing, hfn, dfn, kver, sownK, cause, store, extra, value>>
 
 Corrupt(i) ==
-    /\ dir = "present" /\ Step /\ i \in 1..B /\ res[i] = "ok"
+    /\ dir = "present" /\ Step /\ i \in 1..B /\ res[i] \in OkTags
     /\ res' = [res EXCEPT ![i] = "bad"]
     /\ outcome' = "ok"
     /\ UNCHANGED <<cfg, perm1, dir, B, bsz, rem, sown, batch, infoShuf, failing, hfn, dfn, kver, sownK, cause, store, extra, value>>
@@ -227,6 +246,7 @@ CheckBad ==
    otherwise the session's own function / farmer object is attached again *)
 Reload(fromDisk) ==
     /\ dir = "present" /\ Step
+    /\ fromDisk => kver = sownK            \* (not modelled: a farmer un-pickled from the crop carries the constants of the last sow)
     /\ hfn' = IF fromDisk THEN dfn ELSE hfn
     /\ outcome' = "ok"
     /\ UNCHANGED <<cfg, perm1, dir, B, bsz, rem, sown, batch, infoShuf, res, failing, dfn, kver, sownK, cause, store, extra, value>>
@@ -256,7 +276,7 @@ PlaceLen(i) == CASE PlaceholderLen = "actual" -> Len(batch[i])
                  [] PlaceholderLen = "le" -> bsz + (IF i <= rem THEN 1 ELSE 0)
 
 (* the chain of results the Reaper hands out, batch after batch *)
-Chain == FlattenSeq([i \in 1..B |-> IF res[i] = "ok" THEN batch[i]
+Chain == FlattenSeq([i \in 1..B |-> IF res[i] \in OkTags THEN batch[i]
                                       ELSE [k \in 1..PlaceLen(i) |-> Missing]])
 
 (* combo_runner_core replays the enumeration with the recorded shuffle: its k-th call is for
@@ -312,13 +332,22 @@ Obs == [prepared |-> dir = "present",
         outcome  |-> outcome]
 
 
+(* some finished result was grown from batches that held other constants than the batches hold now *)
+Stale == \E i \in 1..B : res[i] \in OkTags /\ res[i] # OkTag
+
+(* which version of the constants the value of setting id carries in a reap (that of the result its batch has now) *)
+KOf == [id \in 1..N |-> LET i == CHOOSE j \in 1..B : \E k \in 1..Len(batch[j]) : batch[j][k] = id
+                         IN  IF res[i] = "ok1" THEN 1 ELSE IF res[i] = "ok" THEN 0 ELSE sownK]
+
 (* every call is logged with what the crop reports afterwards (for the replay) *)
 Do(A, name, args) ==
     /\ A
     /\ hist' = IF Record
                 THEN Append(hist, [a |-> name, args |-> args, post |-> Obs',
                                    value |-> IF name = "reap" /\ outcome' \in {"complete", "partial"} THEN value' ELSE <<>>,
-                                   store |-> store', k |-> sownK', extra |-> extra'])
+                                   store |-> store', k |-> sownK', stale |-> Stale',
+                                   kof |-> IF name = "reap" /\ outcome' \in {"complete", "partial"} THEN KOf ELSE <<>>,  \* (res, batch, sownK as before the reap)
+                                   extra |-> extra'])
                 ELSE hist
 
 On(name) == name \in Acts
@@ -339,11 +368,12 @@ DoRegressFn == On("regress_fn") /\ Do(RegressFn, "regress_fn", <<>>)
 DoCheckBad == On("check_bad") /\ Do(CheckBad, "check_bad", <<>>)
 DoReload == On("reload") /\ \E fd \in BOOLEAN : Do(Reload(fd), "reload", <<fd>>)
 DoChangeConst == On("campaign2") /\ Do(ChangeConst, "change_const", <<>>)
+DoChangeConstMid == On("const_mid") /\ Do(ChangeConstMid, "change_const", <<>>)
 DoDirectHarvest == On("direct_harvest") /\ Do(DirectHarvest, "direct_harvest", <<>>)
 DoFixCause == On("fix_cause") /\ Do(FixCause, "fix_cause", <<cause>>)
 
 Next == \/ DoSow \/ DoReSow \/ GrowAny \/ GrowSetAny \/ DoGrowMissing \/ DoFixFn \/ DoRegressFn
-        \/ DeleteAny \/ CorruptAny \/ DoCheckBad \/ DoReload \/ DoFixCause \/ DoChangeConst \/ DoDirectHarvest
+        \/ DeleteAny \/ CorruptAny \/ DoCheckBad \/ DoReload \/ DoFixCause \/ DoChangeConst \/ DoChangeConstMid \/ DoDirectHarvest
         \/ ReapAny \/ ReapPartialAny \/ ReapDefault
 
 Spec == Init /\ [][Next]_vars
@@ -371,9 +401,9 @@ OnlyOwnResult ==
     [][dir = "present" /\ dir' = "present" =>
          \A i \in 1..B :
             res'[i] # res[i] =>
-               \/ res'[i] = "ok"     /\ ~Fails(i)                       \* a grow of i that completed
-               \/ res'[i] = "absent" /\ res[i] \in {"ok", "bad"}        \* deletion / check_bad
-               \/ res'[i] = "bad"    /\ res[i] = "ok"]_vars             \* environment
+               \/ res'[i] \in OkTags /\ ~Fails(i)                      \* a grow of i that completed
+               \/ res'[i] = "absent" /\ res[i] \in OkTags \cup {"bad"}  \* deletion / check_bad
+               \/ res'[i] = "bad"    /\ res[i] \in OkTags]_vars             \* environment
 ResowKeepsResults == [][ReSow => (res' = res /\ batch' = batch)]_vars
 FailedGrowWritesNothing == [][outcome' = "raised" /\ (\E i \in 1..B : \E v \in {"fn", "method"} : Grow(i, v)) => res' = res]_vars
 
@@ -398,6 +428,13 @@ RefusedUntouched ==
 
 (* C06: what was harvested directly into the same file is still there after the crop's reap *)
 DirectDataSurvives == [][extra' >= extra]_vars
+
+(* C06: growing a batch (again) always leaves the result of the batch file as it is now - after a re-sow with changed constants,
+   growing every batch leaves no result of the old constants behind, so the reap equals a direct run with the new ones *)
+GrowRefreshes ==
+    [][\A i \in 1..B : (res'[i] # res[i] /\ res'[i] \in OkTags) => res'[i] = OkTag]_vars
+FullGrowLeavesNothingStale ==
+    [][(\E S \in SUBSET (1..B) : GrowSet(S) /\ S = 1..B) /\ outcome' = "ok" => ~Stale']_vars
 
 (* C12 *)
 DeleteOnlyAfterDelivery ==
